@@ -158,6 +158,16 @@ func c11Random(c *Case) {
 			setOnly = true
 		}
 		e = p
+	case 4: // a union as a predicate of a step with several candidates: it is re-evaluated for each of them
+		rl, rr := g.RelFreePath(1+g.Intn(2), names), g.RelFreePath(1+g.Intn(2), names)
+		var pred xref.Expr = xref.Bin{Op: "|", L: rl, R: rr}
+		if g.Chance(0.3) {
+			pred = xref.Call{Name: "not", Args: []xref.Expr{pred}}
+		} else if g.Chance(0.3) {
+			pred = xref.Bin{Op: ">", L: xref.Call{Name: "count", Args: []xref.Expr{xref.Bin{Op: "|", L: g.RelFlat(names), R: g.RelFlat(names)}}}, R: xref.Num{Lex: "1"}}
+		}
+		e = xref.Path{Abs: true, Steps: []*xref.Step{xgen.DSlash(), {Axis: "child", Abbrev: "child", Test: xref.Test{Kind: "*"}, Preds: []xref.Expr{pred}}}}
+		setOnly = true
 	case 3: // union as the start of a path
 		e = xref.Path{Start: xref.Group{X: e}, Steps: []*xref.Step{g.FreeStep(names)}}
 		setOnly = true
